@@ -59,9 +59,18 @@ func loadFrozen(prop string) []FnSpecJ {
 }
 
 // Frozen evaluates every frozen spec of the property.
-func (c *Check) Frozen(prop string) int {
+func (c *Check) Frozen(prop string) int { return c.FrozenFiltered(prop, "", nil) }
+
+// FrozenFiltered evaluates the frozen specs of `prop` whose function passes keep, under rule (""= the frozen rule).
+func (c *Check) FrozenFiltered(prop, rule string, keep func(fn string) bool) int {
 	n := 0
 	for _, s := range loadFrozen(prop) {
+		if keep != nil && !keep(s.Fn) {
+			continue
+		}
+		if rule != "" {
+			s.Rule = rule
+		}
 		fs := FnSpec{Fn: s.Fn, Guards: s.Guards, Success: s.Success, Returns: s.Returns, Stores: s.Stores, RetAts: s.RetAts}
 		for _, e := range s.Effects {
 			args := map[int]string{}
